@@ -189,3 +189,106 @@ def simple_world(prefix, layers, tests_by_layer, module_layout=None,
                          'suite': {'t': 'suite', 'ch': [node]}})
     return {'prefix': prefix, 'layers_module': prefix + '_layers',
             'layers': layers, 'modules': mods}
+
+
+# ------------------------------------------------------------ nested worlds
+
+def nested_world(rng, prefix, layers=None, nmods=(1, 4), depth=(0, 3),
+                 levels=(None, None, 1, 2, 3), p_layer=0.4, p_level=0.35,
+                 tests_per_class=(1, 3), classes_per_suite=(1, 2),
+                 kinds=('pass',), layouts=('tests_pkg', 'tests_file',
+                                           'nested_pkg'),
+                 p_unit_mod=0.0):
+    """A world with several modules whose test_suite() returns suites nested
+    to the given depth, with layer/level declared (or not) at every depth and
+    on the class."""
+    if layers is None:
+        layers = random_layer_graph(rng, nmax=4, nmin=1, p_hook=0.7)
+    lnames = [ls['name'] for ls in layers]
+    nm = rng.randint(*nmods)
+    mods = []
+    cls_counter = [0]
+
+    def decl(node):
+        if rng.random() < p_layer:
+            node['layer'] = rng.choice(lnames + ['UNIT'])
+        if rng.random() < p_level:
+            lv = rng.choice(levels)
+            if lv is not None:
+                node['level'] = lv
+
+    def mk_class():
+        cls_counter[0] += 1
+        n = rng.randint(*tests_per_class)
+        node = {'t': 'class', 'name': 'TestC%d' % cls_counter[0],
+                'tests': [{'name': 'test_%s%d' % (rng.choice('abxyz'), i),
+                           'kind': rng.choice(kinds)} for i in range(n)]}
+        decl(node)
+        return node
+
+    def mk_suite(d):
+        node = {'t': 'suite', 'ch': []}
+        decl(node)
+        if d <= 0:
+            for _ in range(rng.randint(*classes_per_suite)):
+                node['ch'].append(mk_class())
+        else:
+            for _ in range(rng.randint(1, 2)):
+                if rng.random() < 0.3:
+                    node['ch'].append(mk_class())
+                else:
+                    node['ch'].append(mk_suite(d - 1))
+        return node
+
+    for i in range(nm):
+        layout = rng.choice(layouts)
+        if layout == 'tests_pkg':
+            name = '%s_p%d.tests.test_m%d' % (prefix, i % 2, i)
+        elif layout == 'tests_file':
+            name = '%s_q%d.tests' % (prefix, i)
+        else:
+            name = '%s_p%d.sub%d.tests.test_n%d' % (prefix, i % 2, i, i)
+        m = {'name': name, 'file': name.replace('.', '/') + '.py',
+             'suite': mk_suite(rng.randint(*depth))}
+        m['suite'].pop('dummy', None)
+        mods.append(m)
+    return {'prefix': prefix, 'layers_module': prefix + '_layers',
+            'layers': layers, 'modules': mods}
+
+
+def all_test_ids(spec):
+    import vworld
+    return [tid for tid, *_ in vworld.iter_tests(spec)]
+
+
+def random_patterns(rng, names, maxn=3, p_neg=0.35):
+    """Pattern list built from substrings of real names."""
+    pats = []
+    for _ in range(rng.randint(1, maxn)):
+        name = rng.choice(names)
+        r = rng.random()
+        if r < 0.35:
+            a = rng.randrange(len(name))
+            b = rng.randint(a + 1, min(len(name), a + 8))
+            p = re_escape(name[a:b])
+        elif r < 0.5:
+            p = '^' + re_escape(name[:rng.randint(1, len(name))])
+        elif r < 0.65:
+            p = re_escape(name[-rng.randint(1, len(name)):]) + '$'
+        elif r < 0.8:
+            other = rng.choice(names)
+            p = '%s|%s' % (re_escape(name[-6:]), re_escape(other[-5:]))
+        elif r < 0.9:
+            p = rng.choice(['.', '', 'test_[ab]', '[xyz]\\d', 'C\\d*[02468]\\b',
+                            'zzz_nothing'])
+        else:
+            p = re_escape(name)
+        if rng.random() < p_neg:
+            p = '!' + p
+        pats.append(p)
+    return pats
+
+
+def re_escape(s):
+    import re
+    return re.escape(s)
